@@ -5,10 +5,12 @@
    PROVED for every state and every call: the header half (header counts / rate / frame count / channel
    count / samples per frame follow the parameters after every mutator), and for frame() the parameter half of the
    counts (POINT:FRAMES / POINT:USED / ANALOG:USED are the stored frames / points of frame 0 / channels of its first
-   sub-frame after every accepted frame, on objects whose mandatory parameters are well typed).  NOT yet proved: the
-   label-like lists, the shape of frames other than frame 0, and the parameter half for the column and declare calls:
-   decided by the check. *)
-From EZ Require Import Base Types Api Proofs_Param Proofs_Guards Spec_Inv Proofs_Inv Proofs_Header Spec_Typed Proofs_Updaters Proofs_ApiSafe Float32 Run.
+   sub-frame after every accepted frame, on objects whose mandatory parameters are well typed); and the WHOLE predicate Inv
+   (all ten components, every stored frame, the label-like lists and their order) is preserved when a frame of the announced
+   shape is appended to a data set that holds analog data (C05_frame_append_preserves_the_agreement) or points only
+   (C05_frame_append_points_only).  NOT yet proved: the whole predicate for replacements and extensions, and for the column
+   and declare calls: decided by the check. *)
+From EZ Require Import Base Types Api Proofs_Param Proofs_Guards Spec_Inv Proofs_Inv Proofs_Header Spec_Typed Proofs_Updaters Proofs_ApiSafe Proofs_InvFrame Float32 Run.
 Local Open Scope N_scope.
 
 Definition conforming (s : state) (o : op) : Prop :=
@@ -151,3 +153,104 @@ Proof.
   split; [vm_compute; reflexivity|]. repeat split; vm_compute; reflexivity.
 Qed.
 Print Assumptions C05_nonvacuous.
+
+(* THE WHOLE AGREEMENT, every component at once, across frame(): from a state in which header, parameters and stored frames
+   agree (Inv: header counts, POINT:FRAMES / USED, ANALOG:USED, the shape of EVERY filled frame, the eight label-like lists,
+   the label order), appending a frame of the announced shape (the declared point names in order, the data set's sub-frame
+   count, the declared channel names in every sub-frame) to a data set with analog data leads to a state in which they agree
+   again.  Side conditions: mandatory parameters well typed (MT), frame 0 holds sub-frames and at least one channel is
+   declared (the data, not the rates, fix the sub-frame count), counts below 2^31. *)
+Theorem C05_frame_append_preserves_the_agreement : forall f_key f_tosize f_div f_is_zero,
+  (forall x e, f_key x <> Throw e) -> (forall x e, f_tosize x <> Throw e) ->
+  forall f s s' f0 ft a,
+  Inv s -> MT (groups s) ->
+  frames s = f0 :: ft -> fr_subs f0 <> [] ->
+  lk_int0 (groups s) nm_ANALOG nm_USED = Some a -> a <> 0 ->
+  announced s f ->
+  nlen (frames s) + 1 < 2147483648 -> nlen (fr_pts f0) < 2147483648 -> a < 2147483648 -> a * h_byframe (hdr s) < two64 ->
+  api_frame f_key f_tosize f_div f_is_zero f None s = ROk tt s' ->
+  Inv s'.
+Proof. exact frame_append_keeps_inv. Qed.
+Print Assumptions C05_frame_append_preserves_the_agreement.
+
+(* the same for a data set that holds points only: no channel is declared and the rates announce no sub-frame (POINT:RATE
+   truncates to at least 1, ANALOG:RATE / POINT:RATE truncates to 0 — the sub-frame count then comes from the rates) *)
+Theorem C05_frame_append_points_only : forall f_key f_tosize f_div f_is_zero,
+  (forall x e, f_key x <> Throw e) -> (forall x e, f_tosize x <> Throw e) ->
+  forall f s s' f0 ft,
+  Inv s -> MT (groups s) ->
+  frames s = f0 :: ft -> fr_pts f0 <> [] -> fr_subs f0 = [] ->
+  lk_int0 (groups s) nm_ANALOG nm_USED = Some 0 ->
+  rates_announce_none f_tosize f_div (groups s) ->
+  announced s f ->
+  nlen (frames s) + 1 < 2147483648 -> nlen (fr_pts f0) < 2147483648 ->
+  api_frame f_key f_tosize f_div f_is_zero f None s = ROk tt s' ->
+  Inv s'.
+Proof. exact frame_append_keeps_inv_points_only. Qed.
+Print Assumptions C05_frame_append_points_only.
+
+(* non-vacuity: a data set with one point and one channel at two sub-frames per frame meets every hypothesis; the
+   agreement after the second frame is obtained from the theorem, not by evaluating the predicate *)
+Definition c05_demo : option state :=
+  let prate := mkParam nm_RATE [] false TFloat [1] [] [1120403456] [] in
+  let arate := mkParam nm_RATE [] false TFloat [1] [] [1128792064] [] in
+  let f := mkFrame [mkPoint [97] 1 2 3 4] [[mkChan [99] 5]; [mkChan [99] 6]] in
+  match step_x init (OPoint [97]) with ROk _ s1 =>
+  match step_x s1 (OAnalog [99]) with ROk _ s2 =>
+  match step_x s2 (OParam nm_POINT prate) with ROk _ s3 =>
+  match step_x s3 (OParam nm_ANALOG arate) with ROk _ s4 =>
+  match step_x s4 (OFrame f None) with ROk _ s5 => Some s5 | _ => None end | _ => None end | _ => None end | _ => None end | _ => None end.
+Definition c05_demo_state : state := Eval vm_compute in match c05_demo with Some s => s | None => init end.
+Definition c05_demo_frame : frame := mkFrame [mkPoint [97] 7 8 9 10] [[mkChan [99] 11]; [mkChan [99] 12]].
+
+Example C05_frame_append_nonvacuous :
+  exists s', step_x c05_demo_state (OFrame c05_demo_frame None) = ROk tt s' /\ nlen (frames s') = 2 /\ Inv s'.
+Proof.
+  destruct (step_x c05_demo_state (OFrame c05_demo_frame None)) as [[] s'| |] eqn:E; [|vm_compute in E; discriminate|vm_compute in E; discriminate].
+  exists s'. split; [reflexivity|]. split; [vm_compute in E; injection E as <-; reflexivity|].
+  refine (frame_append_keeps_inv f_key_impl f_tosize_impl f_div_impl f_is_zero_impl f_key_impl_nothrow f_tosize_impl_nothrow
+            c05_demo_frame c05_demo_state s' (mkFrame [mkPoint [97] 1 2 3 4] [[mkChan [99] 5]; [mkChan [99] 6]]) [] 1 _ _ _ _ _ _ _ _ _ _ _ E).
+  - vm_compute. reflexivity.
+  - vm_compute. reflexivity.
+  - reflexivity.
+  - discriminate.
+  - vm_compute. reflexivity.
+  - discriminate.
+  - split; [vm_compute; reflexivity|]. split; [vm_compute; reflexivity|].
+    intros sf [<-|[<-|[]]]; vm_compute; reflexivity.
+  - vm_compute. reflexivity.
+  - vm_compute. reflexivity.
+  - vm_compute. reflexivity.
+  - vm_compute. reflexivity.
+Qed.
+Print Assumptions C05_frame_append_nonvacuous.
+
+(* non-vacuity of the points-only theorem: one declared point at 100 Hz, ANALOG:RATE left at 0 *)
+Definition c05_demo_p : option state :=
+  let prate := mkParam nm_RATE [] false TFloat [1] [] [1120403456] [] in
+  match step_x init (OPoint [97]) with ROk _ s1 =>
+  match step_x s1 (OParam nm_POINT prate) with ROk _ s2 =>
+  match step_x s2 (OFrame (mkFrame [mkPoint [97] 1 2 3 4] []) None) with ROk _ s3 => Some s3 | _ => None end | _ => None end | _ => None end.
+Definition c05_demo_p_state : state := Eval vm_compute in match c05_demo_p with Some s => s | None => init end.
+
+Example C05_frame_append_points_only_nonvacuous :
+  exists s', step_x c05_demo_p_state (OFrame (mkFrame [mkPoint [97] 7 8 9 10] []) None) = ROk tt s' /\ nlen (frames s') = 2 /\ Inv s'.
+Proof.
+  destruct (step_x c05_demo_p_state (OFrame (mkFrame [mkPoint [97] 7 8 9 10] []) None)) as [[] s'| |] eqn:E; [|vm_compute in E; discriminate|vm_compute in E; discriminate].
+  exists s'. split; [reflexivity|]. split; [vm_compute in E; injection E as <-; reflexivity|].
+  refine (frame_append_keeps_inv_points_only f_key_impl f_tosize_impl f_div_impl f_is_zero_impl f_key_impl_nothrow f_tosize_impl_nothrow
+            (mkFrame [mkPoint [97] 7 8 9 10] []) c05_demo_p_state s' (mkFrame [mkPoint [97] 1 2 3 4] []) [] _ _ _ _ _ _ _ _ _ _ E).
+  - vm_compute. reflexivity.
+  - vm_compute. reflexivity.
+  - reflexivity.
+  - discriminate.
+  - reflexivity.
+  - vm_compute. reflexivity.
+  - intros rate Rr. vm_compute in Rr. injection Rr as <-. split.
+    + intros rs Hrs. vm_compute in Hrs. injection Hrs as <-. discriminate.
+    + intros ar q Ra Hq. vm_compute in Ra. injection Ra as <-. vm_compute in Hq. injection Hq as <-. reflexivity.
+  - split; [vm_compute; reflexivity|]. split; [vm_compute; reflexivity|]. intros sf [].
+  - vm_compute. reflexivity.
+  - vm_compute. reflexivity.
+Qed.
+Print Assumptions C05_frame_append_points_only_nonvacuous.
